@@ -531,7 +531,7 @@ def run(ctx: common.Run):
             moments = g.scoped_template()
         else:
             moments = g.single_qubit_template()
-        if i == 0:  # corpus: witness of the known finding unroll:unitary-raises:zero-reps always runs
+        if i == 0:  # corpus: witness of the repaired defect unroll:unitary-raises:zero-reps always runs
             g = Gen(rng)
             g.gates = {1: ('xpow', 0.063), 2: ('meas', None), 3: ('xpow', 0.089)}
             moments = [[{'sub': {'body': [[{'op': {'id': 1, 'q': [2], 'mkey': None, 'conds': []}}], [{'op': {'id': 2, 'q': [1], 'mkey': {'path': [], 'name': 'c'}, 'conds': []}}],
@@ -621,12 +621,15 @@ def run(ctx: common.Run):
             # (a zero-repetition operation still occupies its qubits, like an identity: qubits are compared on the others)
             ('all_qubits', wrapped.all_qubits() if not any_zero_reps(moments) else spec_circuit.all_qubits(), spec_circuit.all_qubits()),
             ('is_measurement', cirq.is_measurement(wrapped), cirq.is_measurement(spec_circuit)),
+            ('are_all_measurements_terminal', wrapped.are_all_measurements_terminal(), spec_circuit.are_all_measurements_terminal()),
+            ('are_any_measurements_terminal', wrapped.are_any_measurements_terminal(), spec_circuit.are_any_measurements_terminal()),
+            ('has_unitary', cirq.has_unitary(wrapped), cirq.has_unitary(spec_circuit)),
         ):
             ctx.count('check', 'query:' + name)
             if fw != fu:
                 zero = any_zero_reps(moments)
-                report(f'query:{name}' + (':zero-reps' if zero else ''), f'{name} of the wrapped circuit differs from that of its unrolled form', sorted(map(str, fw)) if not isinstance(fw, bool) else fw,
-                       sorted(map(str, fu)) if not isinstance(fu, bool) else fu)
+                report(f'query:{name}' + (':zero-reps' if zero else ''), f'{name} of the wrapped circuit differs from that of its unrolled form', sorted(map(str, fw)) if not isinstance(fw, (bool, type(None))) else fw,
+                       sorted(map(str, fu)) if not isinstance(fu, (bool, type(None))) else fu)
         # (3) unitary
         qs = b.qs
         if all(f['mkey'] is None and not f['conds'] for f in spec):
